@@ -139,7 +139,7 @@ static void run() {
     auto &a = vp::args();
     vp::CaseScope scope([] { return serc(g_cur); });
     size_t maxsize = a.thorough() ? 64 : 24;
-    vp::stats().rule = vp::fmt("enum: data size 1..%zu x placement {0,1,5,40} x {default trivial sum, CRC-16/ARC, 32-bit sum} x aux buffer {none, sizes 0..size+1} x order of place/sum calls; per configuration: "
+    vp::stats().rule = vp::fmt("enum: data size 1..%zu x placement {0,1,5,40} x {default trivial sum, CRC-16/ARC, 32-bit sum} x aux buffer {none, sizes 0..size+1} x order of place/sum calls (incl. instances first configured with the checksum of the other width and then re-configured); per configuration: "
                                "full store, every (offset,length) partial store/fetch incl. refused and arithmetic-overflow pairs, every single-octet alteration x 3 deltas, reset with 3 fill values; "
                                "every medium access is logged and checked against the instance's region; medium-call budget per operation; plus data sizes 255..257, 65535..65537, 70000 (thorough: 2^17+-1) with aux sizes around 2^8/2^16 and sampled part accesses/alterations", maxsize);
     vp::stats().exhaustive = true;
@@ -148,7 +148,7 @@ static void run() {
         for (uint32_t place : {0u, 1u, 5u, 40u})
             for (int cs = 0; cs < 3; cs++)
                 for (long aux = -1; aux <= (long)size + 1; aux++)
-                    for (int order = 0; order < 2; order++) {
+                    for (int order = 0; order < (cs ? 3 : 2); order++) {
                         if (idx++ % a.nshards != a.shard) continue;
                         Case c{{size, place, cs, aux, order}, a.seed};
                         if (aux == 0 && vp::excluded("validate:no-progress")) { vp::stats().excluded++; continue; }
